@@ -697,6 +697,84 @@ def w_lattice(task):
     return part
 
 
+def w_list_arguments(task):
+    """functions whose argument is a list (expansions in apmath are passed this way): f(lst) and f(lst, y)"""
+    fa = setup_repo_import()
+    part = new_part()
+    import sys as _sys
+    import warnings as _warnings
+
+    x, y = ("x",), ("y",)
+    recipes = [("add", ("multiply", x, y), x), ("select", ("lt", x, y), ("subtract", x, y), ("add", x, ("c", 0.5))), ("multiply", ("add", x, y), ("add", x, y)), ("sqrt", ("absolute", ("multiply", x, y)))]
+    dts = ["float32", "float64"]
+    vals = [0.0, -0.0, 0.5, -2.5, 1e-5, 123.456, 3.0, 1.0000000009313226]
+    for ri, recipe in enumerate(recipes):
+        for t0 in dts:
+            for t1 in dts:
+                for extra in (False, True):
+                    for debug in (0, 1):
+                        part["evaluations"] += 1
+                        case = {"kind": "list-arguments", "recipe": ri, "t0": t0, "t1": t1, "extra": extra, "debug": debug, "scenario": "list-argument"}
+                        label = f"f(lst: list[{t0}, {t1}]{', z' if extra else ''}) = {skeleton(recipe)} with x=lst[0], y=lst[1]{' times z' if extra else ''} [numpy, debug={debug}]"
+
+                        if extra:
+
+                            def f(ctx, lst, z):
+                                return build_recipe(fa, ctx, recipe, {"x": lst[0], "y": lst[1]}) * z
+
+                        else:
+
+                            def f(ctx, lst):
+                                return build_recipe(fa, ctx, recipe, {"x": lst[0], "y": lst[1]})
+
+                        with quiet():
+                            try:
+                                ctx = fa.Context(paths=[fa.algorithms])
+                                targs = [list[getattr(np, t0), getattr(np, t1)]] + ([getattr(np, t0)] if extra else [])
+                                g = ctx.trace(f, *targs).rewrite(fa.targets.numpy)
+                                src = g.tostring(fa.targets.numpy, debug=debug)
+                                ns = dict(sys=_sys, numpy=np, make_complex=fa.utils.make_complex, finfo_float32=np.finfo(np.float32), finfo_float64=np.finfo(np.float64), warnings=_warnings)
+                                exec(compile(src, "<emitted>", "exec"), ns)
+                                fn = ns["f"]
+                            except Exception as e:
+                                bump(part, "list_not_accepted_" + type(e).__name__)
+                                continue
+                        if debug == 0:
+                            for kind, nm in ssa_python(src):
+                                viol(part, f"numpy:single-assignment:{kind}", f"{label}: variable `{nm}`: {kind}\n{src[:600]}", case)
+                        A = np.array([a for a in vals for b in vals], dtype=getattr(np, t0))
+                        B = np.array([b for a in vals for b in vals], dtype=getattr(np, t1))
+                        Z = np.array([vals[(i * 3 + 1) % len(vals)] for i in range(len(A))], dtype=getattr(np, t0))
+                        try:
+                            want = np.asarray(interp.Interp(fa, g).run([A, B], *([Z] if extra else [])))
+                        except Exception:
+                            bump(part, "list_reference_failed")
+                            continue
+                        ok = True
+                        for j in range(len(A)):
+                            try:
+                                with np.errstate(all="ignore"):
+                                    with quiet():
+                                        got = fn([A[j], B[j]], *([Z[j]] if extra else []))
+                            except AssertionError:
+                                bump(part, "numpy_debug_assertion")
+                                ok = False
+                                break
+                            except Exception as e:
+                                viol(part, f"numpy:raises:{type(e).__name__}:general", f"{label} at {[A[j], B[j]]}: {type(e).__name__}: {e}\n{src[:500]}", case)
+                                ok = False
+                                break
+                            gg, w = np.asarray(got), np.asarray(want[j])
+                            if not (gg.dtype == w.dtype and (vbytes(gg) == vbytes(w) or (np.isnan(gg) and np.isnan(w)))):
+                                viol(part, "numpy:value-differs:general", f"{label} at {[A[j], B[j]]}: emitted code returns {got!r}, interpreter {w!r}", case)
+                                ok = False
+                                break
+                        if ok:
+                            part["nontrivial"] += 1
+    part["samples"].append({"list_arguments": "f(lst[, z]) over 4 recipes x dtype pairs x debug 0/1"})
+    return part
+
+
 def reuse_alphabet():
     x, y = ("x",), ("y",)
     s_ = ("add", ("multiply", x, y), x)
@@ -805,6 +883,7 @@ def run(run):
     n = len(lattice_programs())
     run.counters["lattice_programs"] = n
     run.map(MOD, "w_lattice", [dict(lo=lo, stride=48) for lo in range(48)])
+    run.map(MOD, "w_list_arguments", [dict()])
     depth = 3 if run.tier == "thorough" else 2
     run.map(MOD, "w_reuse", [dict(target=tg, depth=depth, lo=lo, stride=6) for tg in ("python", "numpy", "cpp") for lo in range(6)])
     run.coverage_extra["programs"] = int(run.evaluations)
@@ -825,6 +904,8 @@ def replay(case):
     part = new_part()
     if "req" in case:
         part = w_shipped(dict(reqs=[case["req"]]))
+    elif case.get("kind") == "list-arguments":
+        part = w_list_arguments(dict())
     elif "sequence" in case:
         recipes, types = reuse_alphabet()
         seq = [tuple(e) for e in case["sequence"]]
